@@ -77,14 +77,16 @@ def rangedText (rs : List HRange) : Str :=
 
 /-! ### `list_push_hostlist` -/
 /-- the doubling loop: `len` = length of the ranged text; the call `hostlist_ranged_string(hl, n-1, s)`
-    fails iff the text and its NUL do not fit n-1 bytes.
+    fails iff the text and its NUL do not fit n-1 bytes.  The answer is the CAPACITY of the block `s` when
+    the loop is left: `Realloc (&s, n)` is the loop BODY, so when the ceiling test `(n *= 2) < 0x7fffff` ends
+    the loop the block still has the size of the last — failed — attempt (2^22) and holds its cut text.
     DEFECT D2: `n*=2 < 0x7fffff` is `n *= (2 < 0x7fffff)`, i.e. `n *= 1`, a non-zero value: the
     buffer never grows and the loop never ends.   `none` = fuel exhausted. -/
 def pushLoop (fix : Bool) (len : Nat) : Nat → Nat → Option Nat
   | 0, _ => none
   | f + 1, n =>
     if len ≥ n - 1 then
-      (if fix then (if n * 2 < 0x7fffff then pushLoop fix len f (n * 2) else some (n * 2))
+      (if fix then (if n * 2 < 0x7fffff then pushLoop fix len f (n * 2) else some n)
        else (if n * 1 ≠ 0 then pushLoop fix len f (n * 1) else some n))
     else some n
 
@@ -139,12 +141,19 @@ def readHl (cfg : Cfg) : List Str → EL → XM EL
     | .ok e' => readHl cfg xs e'
     | .error r => .error r
 
-/-- `list_push_hostlist`: the entry pushed onto `exclude_list` -/
+/-- `list_push_hostlist`: the entry pushed onto `exclude_list`.
+    FINDING F02-XFILE-4MIB: when the ceiling ends the loop (ranged form of the file ≥ 2^22 - 1 bytes) the entry is
+    the CUT text of the last attempt: the hosts behind the cut are not excluded (`pushHostlist_cut_iff`); the
+    model stops there (`ub`): what the cut text denotes is C14's `listPushHostlist`. -/
 def pushHostlist (cfg : Cfg) (hl : EL) : XM Str :=
   let text := rangedText hl.ranges
   match pushLoop cfg.fixPushLoop text.length PUSH_FUEL 4096 with
   | none => .error .diverge
-  | some n => if text.length ≥ n - 1 then .error (.ub "exclusion text cut at 8 MiB") else .ok text
+  | some n => if text.length ≥ n - 1 then .error (.ub "exclusion text cut at 4 MiB") else .ok text
+
+/-- `list_push_hostlist` as proposed in findings/C02-XFILE4M.patch: the loop has no ceiling (it stops with a
+    diagnostic only when `n` cannot be doubled any more), the entry is always the whole text -/
+def pushHostlistR (hl : EL) : XM Str := .ok (rangedText hl.ranges)
 
 /-- `wcoll_arg_process` -/
 def argProcess (cfg : Cfg) (env : Env) (st : St) (arg : Str) : XM St :=
